@@ -732,9 +732,9 @@ def judge_C13(case, ml, il):
 PROPS.update({
     "C02": dict(gen=gen_C02, configs=["dev", "rel"], judge=judge_projection(["load"]), both_placements=True,
                 assumptions=["the memory made valid for load is max(8, declared total size) bytes (the caller's obligation under load's safety contract)"]),
-    "C03": dict(gen=gen_C03, configs=["dev", "rel"], judge=judge_projection(["load", "tag", "tags", "tags_nth", "tags_count", "tags_clone", "module", "modules", "new", "clone", "next"]),
+    "C03": dict(gen=gen_C03, configs=["dev", "rel"], judge=judge_projection(["load", "tag", "tags", "tags_nth", "tags_count", "tags_clone", "tags_last", "tags_last_exhausted", "module", "modules", "modules_count", "modules_clone", "new", "clone", "next", "nth", "debug"]),
                 both_placements=True, assumptions=["an iterator is not used again after one of its calls panicked"]),
-    "C10": dict(gen=gen_C10, configs=["dev", "rel"], judge=judge_projection(["load", "calc_checksum", "verify_checksum", "hbuild"]), both_placements=True,
+    "C10": dict(gen=gen_C10, configs=["dev", "rel"], judge=judge_projection(["load", "calc_checksum", "verify_checksum", "hbuild", "new_boxed"]), both_placements=True,
                 assumptions=["the architecture word is 0 or 4 (a defined HeaderTagISA value), as the property presupposes"]),
     "C13": dict(gen=gen_C13, configs=["dev", "rel"], judge=judge_C13, both_placements=True, assumptions=[]),
 })
@@ -808,8 +808,19 @@ def gen_C15(rng, tier):
     for ln in list(range(30, 50)) + [0, 20, 0xFFFFFFFF]:
         for nxt in (E.t_cmdline("n"), E.tag(0x21, b"\xab" * 8)):
             d = E.rsdp_v2(b"RSD PTR ", b"OEMID ", 2, 0x1000, ln, 0x2000)
-            cases.append(mbi_case(dirty_padding(E.mbi([E.t_acpi_v2(d), nxt]), rng, 1.0)))
+            reg = bytearray(dirty_padding(E.mbi([E.t_acpi_v2(d), nxt]), rng, 1.0))
+            if 33 <= ln <= 64:
+                # the extended checksum byte (table offset 32) chosen such that the ln bytes from the table's start sum to 0,
+                # padding and the next tag's bytes included: a sum that runs beyond the 36-byte table would call it valid
+                tot = sum(reg[16:16 + ln]) - reg[16 + 32]
+                reg[16 + 32] = (-tot) % 256
+            cases.append(mbi_case(bytes(reg)))
             dist["rsdp_v2_lengths"] = dist.get("rsdp_v2_lengths", 0) + 1
+    efi = [c for c in gen_C18(random.Random(rng.getrandbits(32)), tier)[0] if c.startswith("mbi ")]
+    if tier == "quick" and len(efi) > 300:
+        efi = random.Random(rng.getrandbits(32)).sample(efi, 300)
+    cases += efi
+    dist["efi_maps"] = len(efi)
     # what a typed view hands out lies inside the tag: palettes against the colour count, ELF tables against count x size
     cases += palette_family(dist)
     elf = [c for c in gen_C19(random.Random(rng.getrandbits(32)), tier)[0] if c.startswith("mbi ")]
@@ -1209,7 +1220,13 @@ def gen_C04(rng, tier):
     for ln in list(range(30, 50)) + [0, 20, 0xFFFFFFFF]:
         for nxt in (E.t_cmdline("n"), E.tag(0x21, b"\xab" * 8)):
             d = E.rsdp_v2(b"RSD PTR ", b"OEMID ", 2, 0x1000, ln, 0x2000)
-            cases.append(mbi_case(dirty_padding(E.mbi([E.t_acpi_v2(d), nxt]), rng, 1.0)))
+            reg = bytearray(dirty_padding(E.mbi([E.t_acpi_v2(d), nxt]), rng, 1.0))
+            if 33 <= ln <= 64:
+                # the extended checksum byte (table offset 32) chosen such that the ln bytes from the table's start sum to 0,
+                # padding and the next tag's bytes included: a sum that runs beyond the 36-byte table would call it valid
+                tot = sum(reg[16:16 + ln]) - reg[16 + 32]
+                reg[16 + 32] = (-tot) % 256
+            cases.append(mbi_case(bytes(reg)))
             dist["rsdp_v2_lengths"] = dist.get("rsdp_v2_lengths", 0) + 1
     # framebuffer tags without any colour information (size 32) for every type byte; with 1..5 bytes of it for the known types
     for b in list(range(0, 8)) + [0x7F, 0x80, 0xFE, 0xFF]:
@@ -1287,6 +1304,12 @@ def gen_C05(rng, tier):
                 region = E.mbi([t, E.t_cmdline("NEXT-TAG")])
                 cases.append(mbi_case(region))
                 count(dist, "kind_%d" % typ)
+    # memory maps whose entry size is not 24 but divides the area bytes (and ones that do not): rejected, nothing handed out
+    for es in (0, 8, 12, 16, 32, 48, 72, 0xFFFFFFFF):
+        for k in (1, 2, 3):
+            pay = marker(k * (es if 0 < es < 100 else 24), start=es % 200 + k)
+            cases.append(mbi_case(E.mbi([E.tag(6, E.u32(es) + E.u32(0) + pay), E.t_cmdline("NEXT-TAG")])))
+            count(dist, "mmap_entry_sizes")
     # the palette of an indexed framebuffer: its extent is fixed by the colour count, which must fit the declared size
     cases += palette_family(dist)
     # ELF section bytes: entry sizes around 40 and 64, counts and indices against the section bytes, overflowing products
@@ -1365,6 +1388,12 @@ def gen_C17(rng, tier):
                     t = t[:max(8, (size + 7) // 8 * 8)] if size >= 8 else t[:8]
                     cases.append(mbi_case(E.mbi([t, E.t_cmdline("NEXTNEXT")])))
                     count(dist, "cut_sizes")
+    # built structures with string tags whose size is / is not a multiple of 8, followed by other tags
+    if "ctor" in DOMAINS_READY:
+        for n in (0, 6, 7, 8, 14, 15, 16, 23):
+            w = hx(b"c" * n)
+            cases.append("build [ [ 1 %s ] [ 2 %s ] [ 3 4096 8192 %s ] [ 3 1 2 %s ] [ 4 1 2 ] ]" % (w, w, w, w))
+            dist["built_string_tags"] = dist.get("built_string_tags", 0) + 1
     # constructors: NUL-free valid UTF-8 of every length 0..40, multi-byte characters, already terminated
     if "ctor" in DOMAINS_READY:
         words = ["", "a", "hello", "héllo € \U0001d11e", "x" * 7, "x" * 8, "x" * 9, "é" * 5]
@@ -1646,6 +1675,9 @@ def gen_C11(rng, tier):
         reqs = b"".join(E.u32(rng.getrandbits(32) if rng.random() < 0.5 else rng.randrange(0, 24)) for _ in range(n))
         cases.append("hdr " + hx(E.header([E.htag(3, 0, E.u32(7)), E.htag(1, rng.randrange(2), reqs), E.htag(1, 0, E.u32(99))])))
         count(dist, "request_lists")
+    for lst_ in ([0], [0, 0], [1, 6, 0], [9, 0, 0], [0, 5], [0, 0, 7, 0], [21, 0xFFFFFFFF, 0]):
+        cases.append("hdr " + hx(E.header([E.htag(1, 0, b"".join(E.u32(x) for x in lst_)), E.htag(6, 0, b"")])))
+        count(dist, "request_lists_with_zero_words")
     for n in (0, 1, 2, 300, 5000, 70000):
         for t in (E.htag(6, 1, b""), E.htag(5, 0, E.u32(1) + E.u32(2) + E.u32(3))):
             cases.append("hbigwalk %d %s" % (n, hx(t)))
@@ -1756,7 +1788,7 @@ PROPS.update({
     "C04": dict(gen=gen_C04, configs=["dev", "rel"], judge=judge_mbi_full, check_model_ub=True,
                 assumptions=["known finding F18 (VBEModeInfo.memory_model byte not in 0..=7) is excluded from 'decodes every field'"]),
     "C05": dict(gen=gen_C05, configs=["dev", "rel"], judge=judge_mbi_full, both_placements=True, assumptions=[]),
-    "C17": dict(gen=gen_C17, configs=["dev", "rel"], judge=judge_projection(["load", "get", "cmdline", "bootloader", "modinfo", "module", "modules", "ctor", "as_bytes", "pstr", "debug"]),
+    "C17": dict(gen=gen_C17, configs=["dev", "rel"], judge=judge_projection(["load", "get", "cmdline", "bootloader", "modinfo", "module", "modules", "ctor", "as_bytes", "pstr", "debug", "build", "tag", "tags"]),
                 both_placements=True, assumptions=["Rust &str arguments are valid UTF-8 by the type's invariant"]),
     "C18": dict(gen=gen_C18, configs=["dev", "rel"], judge=judge_projection(["load", "get", "efi_mmap", "efi_desc", "efi_end", "efi_nth", "efi_count", "efi_dbg", "efi_hist", "debug"]),
                 both_placements=True, assumptions=[]),
